@@ -102,7 +102,7 @@ def lazy_kw(k):
 
 # ================================================================ element level
 if want("elem"):
-    for t in range(N):
+    for t in range(max(N // 2, 20)):
         kind = R.choice(["unit", "nonunit", "nonunit"])
         p = quat_data((1,), kind)[0].tolist()
         q = quat_data((1,), R.choice(["unit", "nonunit"]))[0].tolist()
@@ -140,7 +140,7 @@ def oracle_lazy(sig, what, eager, lazy, rep):
 
 
 if want("outer"):
-    for t in range(max(N // 3, 24)):
+    for t in range(max(N // 4, 16)):
         sa, sb = R.choice(SHAPES), R.choice(SHAPES)
         k = pick_k(sa, sb)
         backend = t % 3 != 0
@@ -201,7 +201,6 @@ if want("outer"):
 
 # ================================================ orientations: dot_outer / angles
 GROUPS = ["C1", "Ci", "C2", "Cs", "D2", "C2v", "C2h", "C3", "D3", "C4", "S4", "C3v", "C6"]
-PROPER_OR_CENTRO = {"C1", "Ci", "C2", "D2", "C2h", "C3", "D3", "C4", "C6"}
 
 
 def qmul_np(p, q):
@@ -244,7 +243,7 @@ def swap_groups(arr, n_first):
 
 
 if want("ori"):
-    for t in range(max(N // 4, 20)):
+    for t in range(max(N // 5, 14)):
         ss, so = R.choice(SMALL), R.choice(SMALL)
         if t % 3 == 0:
             so = R.choice([s for s in SMALL if len(s) == len(ss)])
@@ -254,10 +253,9 @@ if want("ori"):
         flags = R.choice(["none", "none", "mixed"])
         X = mk_rot(ss, Orientation, flags, G1)
         Y = mk_rot(so, Orientation, flags, G2)
-        S = _get_unique_symmetry_elements(G1, G2)
+        S = _get_unique_symmetry_elements(G2, G1)      # (other.symmetry, self.symmetry), as the three methods do
         k = pick_k(ss, so)
-        sj = rot_json(Rotation(S)) if False else {"shape": [S.size], "q": S.data.reshape(-1, 4).tolist(),
-                                                   "imp": S.improper.reshape(-1).astype(int).tolist()}
+        sj = {"shape": [S.size], "q": S.data.reshape(-1, 4).tolist(), "imp": S.improper.reshape(-1).astype(int).tolist()}
         de = X.dot_outer(Y)
         dl = X._dot_outer_dask(Y, chunk_size=k).compute()
         ae = X.angle_with_outer(Y)
@@ -267,36 +265,27 @@ if want("ori"):
                       "sAE": list(ae.shape), "AE": np.cos(ae).reshape(-1).tolist(),
                       "sAL": list(al.shape), "AL": np.cos(al).reshape(-1).tolist(), "g": [g1, g2], "flags": flags})
         samend = len(ss) == len(so)
-        imp_sym = not (g1 in PROPER_OR_CENTRO and g2 in PROPER_OR_CENTRO and g1 == g2) and bool(S.improper.any())
         st(f"odot/ndim={'eq' if samend else 'ne'}/flags={flags}/sym={'improper' if S.improper.any() else 'proper'}")
         # ---- oracle: lazy angle_with_outer vs eager
         rep = {"X": rot_json(X), "Y": rot_json(Y), "groups": [g1, g2], "k": k}
         if not (ae.shape == al.shape and close(al, ae, 1e-6)):
-            # classify against numpy references: R1 = eager semantics (flags), R0 = flag-blind
+            # classify against numpy references (indexed self.shape + other.shape):
+            # R1 = eager semantics (flags used), R0 = flag-blind
             R1 = to_angle(ref_dots(X, Y, S, True, True))
             R0 = to_angle(ref_dots(X, Y, S, False, True))
-            other_first0 = swap_groups(R0, len(ss))
-            other_first1 = swap_groups(R1, len(ss))
-            explained = False
-            if al.shape == other_first0.shape and (close(al, other_first0, 1e-6) or close(al, other_first1, 1e-6)):
-                if not (al.shape == R0.shape and (close(al, R0, 1e-6) or close(al, R1, 1e-6))):
-                    fail("Orientation.angle_with_outer:lazy:axes-other-first",
-                         f"angle_with_outer(lazy=True) is indexed other.shape+self.shape: self {ss} other {so} "
-                         f"-> lazy shape {al.shape}, eager shape {ae.shape}", rep)
-                    explained = True
-            if al.shape == other_first0.shape and close(al, other_first0, 1e-6) and not close(R0, R1, 1e-6):
+            if al.shape == R0.shape and close(al, R0, 1e-6) and not close(R0, R1, 1e-6):
                 fail("Orientation.angle_with_outer:lazy:improper-ignored",
                      f"angle_with_outer(lazy=True) ignores improper flags (of other / of the symmetry elements): "
-                     f"groups {g1},{g2}, flags {flags}", rep)
-                explained = True
-            if not explained:
-                # eager itself may be mis-ordered for ndim mismatch (C04's finding); then judge lazy on its own
-                if al.shape == other_first0.shape and (close(al, other_first0, 1e-6) or close(al, other_first1, 1e-6)):
-                    pass
-                else:
-                    fail("Orientation.angle_with_outer:lazy:values",
-                         f"angle_with_outer(lazy=True) matches neither the eager result nor its reference: "
-                         f"self {ss} other {so} groups {g1},{g2}", rep)
+                     f"self {ss} other {so} groups {g1},{g2}, flags {flags}, chunk {k}", rep)
+            elif al.shape != ae.shape or (len(ss + so) > 1 and al.shape == swap_groups(R0, len(ss)).shape and (
+                    close(al, swap_groups(R0, len(ss)), 1e-6) or close(al, swap_groups(R1, len(ss)), 1e-6))):
+                fail("Orientation.angle_with_outer:lazy:axes-order",
+                     f"angle_with_outer(lazy=True) is not indexed self.shape+other.shape like lazy=False: self {ss} "
+                     f"other {so} -> lazy shape {al.shape}, eager shape {ae.shape}", rep)
+            else:
+                fail("Orientation.angle_with_outer:lazy:values",
+                     f"angle_with_outer(lazy=True) matches neither the eager result nor its flag-blind reference: "
+                     f"self {ss} other {so} groups {g1},{g2}", rep)
         # ---- get_distance_matrix lazy vs eager (self with self)
         ge = X.get_distance_matrix()
         gl = X.get_distance_matrix(**lazy_kw(k))
@@ -321,7 +310,7 @@ if want("ori"):
 # ================================================ misorientation distance matrix
 if want("mis"):
     MG = ["C1", "C2", "Ci", "Cs", "D2", "C3"]
-    for t in range(max(N // 12, 8)):
+    for t in range(max(N // 14, 6)):
         s = R.choice([(1,), (2,), (3,), (2, 2), (1, 2)])
         g1 = R.choice(MG)
         g2 = g1 if R.random() < 0.6 else R.choice(MG)
@@ -429,7 +418,7 @@ def grid_data(shape, dim, kind):
 
 
 if want("strategy"):
-    for t in range(max(N // 10, 10)):
+    for t in range(max(N // 14, 7)):
         cls = R.choice([Quaternion, Quaternion, Rotation, Orientation])
         sym = getattr(osym, R.choice(["C1", "D2", "C3", "C2h"])) if cls is Orientation else None
         sa = R.choice(SMALL)
@@ -438,27 +427,37 @@ if want("strategy"):
         dA, dB, dB2 = grid_data(sa, 4, dkind), grid_data(sb, 4, dkind), grid_data(sa, 4, dkind)
         dV, dV2 = grid_data(sb, 3, dkind), grid_data(sa, 3, dkind)
         res = {}
-        for backend, wide in itertools.product((True, False), (True, False)):
+        # relative perturbations of a few float32 ulps, to measure how ill-conditioned an operation is at
+        # these inputs (a float32 arithmetic path may legitimately deviate by a multiple of that)
+        pert = {id(d): np.array([R.uniform(-1, 1) for _ in range(d.size)]).reshape(d.shape) * 2.0 ** -22
+                for d in (dA, dB, dB2, dV, dV2)}
+
+        def run_all(backend, conv, key):
             set_backend(backend)
-            conv = (lambda d: d.astype(np.float64)) if wide else (lambda d: d)
             a, b, b2 = build(cls, conv(dA), sym), build(cls, conv(dB), sym), build(cls, conv(dB2), sym)
             v, v2 = Vector3d(conv(dV)), Vector3d(conv(dV2))
             for name, (kind, f) in ops_for(cls).items():
                 bb = b if kind.endswith("o") else b2
                 vv = v if kind.endswith("o") else v2
                 try:
-                    res[(name, backend, wide)] = arr(run_op(kind, f, a, bb, vv))
+                    res[(name, backend, key)] = arr(run_op(kind, f, a, bb, vv))
                 except Exception as e:  # noqa
-                    res[(name, backend, wide)] = f"raises {type(e).__name__}"
+                    res[(name, backend, key)] = f"raises {type(e).__name__}"
             if cls is Quaternion and backend:
                 u2 = Vector3d(conv(dV2))
-                w = Vector3d(conv(grid_data(sa, 3, dkind))) if False else u2
+                w2 = Vector3d(conv(dV2)[..., ::-1].copy())
                 for name, (kind, f) in VOPS.items():
-                    other = v if kind.endswith("o") else Vector3d(conv(dV2[..., ::-1].copy()))
+                    other = v if kind.endswith("o") else w2
                     try:
-                        res[(name, backend, wide)] = arr(f(u2) if kind == "v" else f(u2, other))
+                        res[(name, backend, key)] = arr(f(u2) if kind == "v" else f(u2, other))
                     except Exception as e:  # noqa
-                        res[(name, backend, wide)] = f"raises {type(e).__name__}"
+                        res[(name, backend, key)] = f"raises {type(e).__name__}"
+
+        for backend in (True, False):
+            run_all(backend, lambda d: d.astype(np.float64), True)
+            run_all(backend, lambda d: d, False)
+            if dkind == "float32":
+                run_all(backend, lambda d: d.astype(np.float64) * (1 + pert[id(d)]), "pert")
         set_backend(True)
         st(f"strategy/{cls.__name__}/{dkind}")
         names = sorted({k[0] for k in res})
@@ -469,17 +468,23 @@ if want("strategy"):
             rep = {"cls": cname, "op": name, "dtype": dkind, "sa": sa, "sb": sb, "A": dA.tolist(),
                    "B": dB.tolist(), "B2": dB2.tolist(), "V": dV.tolist(), "V2": dV2.tolist()}
 
-            def dev(x, y):
+            def canon(x):
+                return np.concatenate([np.cos(x), np.sin(x)], -1) if name == "to_euler" else x
+
+            def dev(x, y, sens=None):
                 """None if equal, else a short class of the deviation"""
                 if isinstance(x, str) or isinstance(y, str):
                     return None if (isinstance(x, str) and isinstance(y, str) and x == y) else "raises"
-                if name == "to_euler":
-                    x, y = np.concatenate([np.cos(x), np.sin(x)], -1), np.concatenate([np.cos(y), np.sin(y)], -1)
+                x, y = canon(x), canon(y)
                 if close(x, y, 1e-9):
                     return None
-                if x.shape == y.shape and close(x, y, 2e-5):
-                    return "f32-rounding"
-                return "mismatch"
+                if x.shape != y.shape:
+                    return "mismatch"
+                tol = 2e-5
+                if sens is not None and not isinstance(sens, str) and canon(sens).shape == y.shape:
+                    s = float(np.max(np.abs(canon(sens) - y) / np.maximum(1, np.abs(y))))
+                    tol = max(tol, 64 * s)
+                return "f32-rounding" if close(x, y, tol) else "mismatch"
             # backend switch, on float64 inputs
             if (name, False, True) in res:
                 dv = dev(res[(name, False, True)], ref)
@@ -489,7 +494,7 @@ if want("strategy"):
             # dtype, per backend
             for backend in (True, False):
                 if (name, backend, False) in res and (name, backend, True) in res:
-                    dv = dev(res[(name, backend, False)], res[(name, backend, True)])
+                    dv = dev(res[(name, backend, False)], res[(name, backend, True)], res.get((name, backend, "pert")))
                     if dv:
                         what = {"raises": "raises (or stops raising)", "f32-rounding": "differs at float32 rounding level from",
                                 "mismatch": "differs grossly from"}[dv]
@@ -500,7 +505,7 @@ if want("strategy"):
                              + (f": {r2}" if isinstance(r2, str) else ""), rep)
 
     # ---- constructors from other representations: dtype and whole-vs-element
-    for t in range(max(N // 20, 6)):
+    for t in range(max(N // 25, 4)):
         shape = R.choice(SMALL)
         for name, (dim, f) in FROM.items():
             n = size(shape)
@@ -536,7 +541,7 @@ if want("strategy"):
                          f"element-by-element evaluation (shape {shape})", {"d": d64.tolist()})
 
     # ---- whole n-d object vs element by element
-    for t in range(max(N // 10, 10)):
+    for t in range(max(N // 14, 7)):
         cls = R.choice([Quaternion, Rotation, Orientation])
         sym = getattr(osym, R.choice(["C1", "D2", "C3"])) if cls is Orientation else None
         sa, sb = R.choice(SHAPES[:9]), R.choice(SMALL)
@@ -549,8 +554,6 @@ if want("strategy"):
         v2, v = Vector3d(vec_data(sa)), Vector3d(vec_data(sb))
         st(f"elementwise/{cls.__name__}/ndim={len(sa)}")
         for name, (okind, f) in ops_for(cls).items():
-            if name in ("angle_with_outer", "dot_outer") and cls is Orientation and len(sa) != len(sb):
-                continue    # eager Orientation.dot_outer axis order for ndim mismatch: C04's check
             try:
                 whole = arr(run_op(okind, f, a, b if okind.endswith("o") else b2, v if okind.endswith("o") else v2))
             except Exception as e:  # noqa
